@@ -7,7 +7,7 @@ ENGINE = "vcheck (proptest-driven tape decoding, supervisor + 16 worker processe
 
 # id -> (technique, level text, level note, design ref)
 CLAIMED = {
- "C01": ("property-based testing: generated/mutated Typst sources x configs; oracle = Typst-semantic normal form N(parse(in)) == N(parse(fmt(in)))",
+ "C01": ("property-based testing: generated/mutated Typst sources x configs; oracle = Typst-semantic normal form N(parse(in)) == N(parse(fmt(in))); thorough tier: plus coverage-guided fuzzing (libFuzzer) of the same case space with the same oracle",
          "Exploration: deterministic sweep of the vendored fixture corpus over a width x indent grid the test-suite never uses plus proptest-generated grammar (G1) and mutation (G2) cases; the oracle keeps every token unless typst_syntax::ast hides it from evaluation, so an unanticipated change shows up as a difference. Failures are shrunk (tape, then source-level delta debugging) into replay files.",
          "Trusts typst-syntax 0.13.1 and the drop rules of N (DESIGN.md 4.1). Inputs containing the trigger of a listed known finding are excluded and counted. Panics are C05's, erroneous output C04's business.",
          "DESIGN.md 4.1, 5 (C01)"),
@@ -15,52 +15,52 @@ CLAIMED = {
          "Exploration: corpus files/snippets over an unused config grid plus a typed generator of compiling programs (every bound value shown with repr) and mutants of them; pages compared as pixmaps, diagnostics compared when both fail.",
          "typst 0.13.1 with embedded fonts, one in-memory main file, fixed date; pixmaps compared through a 64-bit hash within one process.",
          "DESIGN.md 5 (C02)"),
- "C03": ("property-based testing: idempotence fmt(fmt(x)) == fmt(x), width-targeted configs",
+ "C03": ("property-based testing: idempotence fmt(fmt(x)) == fmt(x), width-targeted configs; thorough tier: plus coverage-guided fuzzing (libFuzzer) of the same case space with the same oracle",
          "Exploration as C01 with widths targeted at the line lengths of the unconstrained output (where a group flips between flat and broken), reorder on/off.",
          "Inputs containing the trigger of a listed known finding are excluded and counted (the unchanged tree has many recorded non-convergent corner cases around comments in unusual places).",
          "DESIGN.md 5 (C03)"),
- "C04": ("property-based testing: generated + mutated Typst sources x configs, oracle = Typst parser accepts the output",
+ "C04": ("property-based testing: generated + mutated Typst sources x configs, oracle = Typst parser accepts the output; thorough tier: plus coverage-guided fuzzing (libFuzzer) of the same case space with the same oracle",
          "Exploration: corpus sweep + generated cases, each output re-parsed with typst-syntax.",
          "Trusts typst-syntax 0.13.1 to decide well-formedness. Known-finding triggers excluded and counted.",
          "DESIGN.md 5 (C04)"),
- "C05": ("fuzzing-style property-based testing over arbitrary UTF-8 (random, damaged, deep nesting) with process isolation; oracle = no panic/abort/hang, refusal iff parser errors, wrapper identity",
-         "Exploration: random and damaged text, extreme configs, every nesting family at depth 1000 on an 8 MiB stack; a worker that dies pins the in-flight case.",
+ "C05": ("fuzzing (random + coverage-guided libFuzzer in the thorough tier) and property-based testing over arbitrary UTF-8 (random, damaged, deep nesting) with process isolation; oracle = no panic/abort/hang, refusal iff parser errors, wrapper identity",
+         "Exploration: random and damaged text, extreme configs, each of 76 nesting families at depth 1000 on an 8 MiB stack; a worker that dies pins the in-flight case.",
          "Release build with debug-assertions/overflow-checks on. Nesting depth explored is bounded (1000 quick / 2000 thorough).",
          "DESIGN.md 5 (C05)"),
- "C06": ("property-based testing with comment-dense generators; oracle = comment sequence/text/word-gap and word sequence equality",
-         "Exploration: comments at list-level gaps, statement ends, chains, markup lines (G1 Comments focus, G2 comment insertion) over the corpus and generated sources.",
+ "C06": ("property-based testing with comment-dense generators; oracle = comment sequence/text/word-gap and word sequence equality; thorough tier: plus coverage-guided fuzzing (libFuzzer) of the same case space with the same oracle",
+         "Exploration: comments at every token gap the generators know (list-level gaps, statement ends, chains, keyword gaps, around = => :, after the dot of a field access, inside math and math arguments, markup lines; G1 Comments focus, G2 comment insertion at any token boundary) over the corpus and generated sources.",
          "`not in` counts as one operator symbol; block-comment continuation-line indentation and trailing blanks are free, as the statement allows. Known-finding triggers excluded and counted.",
          "DESIGN.md 5 (C06)"),
- "C07": ("property-based testing: directive inserted before a tape-chosen node which is then uglified; verbatim oracle + metamorphic relation against the run with the directive neutralised",
+ "C07": ("property-based testing: directive inserted before a tape-chosen node which is then uglified; verbatim oracle + metamorphic relation against the run with the directive neutralised; thorough tier: plus coverage-guided fuzzing (libFuzzer) of the same case space with the same oracle",
          "Exploration over position classes (markup level, code block statement, arguments, array/dict items, right-hand sides, closure bodies, math atoms); the set of disabled nodes is re-derived from the statement, not from typstyle's attribute store.",
          "Optional parentheses/braces that typstyle adds around the disabled node are not differences; text nodes that merge are compared as prefixes. Groups the statement is silent about (a further comment between directive and node) are not compared.",
          "DESIGN.md 5 (C07)"),
- "C08": ("property-based testing with prose-heavy generators at widths far below the line length; oracle = per-Markup-node word and SP/NL/PAR(n) sequence",
+ "C08": ("property-based testing with prose-heavy generators at widths far below the line length; oracle = per-Markup-node word and SP/NL/PAR(n) sequence; thorough tier: plus coverage-guided fuzzing (libFuzzer) of the same case space with the same oracle",
          "Exploration: corpus + G1 Prose focus + G2 line joins/splits.",
          "Embedded code is an opaque marker; comments are dropped before comparison; outer edges of every markup node are free, as the statement allows.",
          "DESIGN.md 5 (C08)"),
- "C09": ("property-based testing with math-heavy generators; oracle = none/SP/NL class of every gap between atoms per Math/MathDelimited node, Equation::block()",
+ "C09": ("property-based testing with math-heavy generators; oracle = none/SP/NL class of every gap between atoms per Math/MathDelimited node, Equation::block(); thorough tier: plus coverage-guided fuzzing (libFuzzer) of the same case space with the same oracle",
          "Exploration: math fixtures + G1 Math focus + G2.",
          "Blanks that are direct children of Args/Array/Named/Spread/MathAttach/MathFrac/MathRoot are exempt structurally (the parser puts exactly the ignorable padding there).",
          "DESIGN.md 5 (C09)"),
- "C10": ("property-based testing with literal-dense generators; oracle = literal token sequence (Raw via block/lang/lines/fence)",
+ "C10": ("property-based testing with literal-dense generators; oracle = literal token sequence (Raw via block/lang/lines/fence); thorough tier: plus coverage-guided fuzzing (libFuzzer) of the same case space with the same oracle",
          "Exploration: corpus + G1 Literals focus + G2 literal mutations in nested/indented positions.",
          "Blanks at the end of interior lines of multi-line strings/raw (finding R1) are excluded by construction and counted.",
          "DESIGN.md 5 (C10)"),
- "C11": ("property-based testing incl. degenerate documents; oracle = validity predicate on the returned string",
+ "C11": ("property-based testing incl. degenerate documents; oracle = validity predicate on the returned string; thorough tier: plus coverage-guided fuzzing (libFuzzer) of the same case space with the same oracle",
          "Exploration over the shared generators plus targeted degenerate documents (empty, blanks of every Unicode kind, comment/raw endings, missing final newline).",
          "Blank = char::is_whitespace; lines are split at LF (the only line break typstyle emits itself).",
          "DESIGN.md 5 (C11)"),
- "C12": ("property-based testing; oracle = proportionality of leading spaces across tab 1..8 at width 2^20 and multiples of the unit at the case's width",
+ "C12": ("property-based testing; oracle = proportionality of leading spaces across tab 1..8 at width 2^20 and multiples of the unit at the case's width; thorough tier: plus coverage-guided fuzzing (libFuzzer) of the same case space with the same oracle",
          "Exploration: corpus + G1 Breaks focus (layouts forced to break) + G2; 13 format calls per case.",
          "Continuation lines of comments, strings, raw text and disabled nodes are exempt (computed on the output).",
          "DESIGN.md 5 (C12)"),
- "C13": ("property-based testing over (source, byte range) pairs incl. erroneous sources and ranges past the end; oracle = node-boundary/cover/splice well-formed and N-equal, refusal on erroneous nodes, no panic",
+ "C13": ("property-based testing over (source, byte range) pairs incl. erroneous sources and ranges past the end; oracle = node-boundary/cover/splice well-formed and N-equal, refusal on erroneous nodes, no panic; thorough tier: plus coverage-guided fuzzing (libFuzzer) of the same case space with the same oracle",
          "Exploration: ranges of every class (empty, whitespace-only, exact node, mid-token, whole, past the end) on corpus, generated and damaged sources.",
-         "A splice failure that whole-document formatting of the same text shows as well is left to C04/C01 (single-homing); ranges inside equations are a recorded finding (R14).",
+         "A splice failure that whole-document formatting of the same text shows as well is left to C04/C01 (single-homing); the splice inherits the recorded C01 findings.",
          "DESIGN.md 5 (C13)"),
  "C14": ("model-based stateful property-based testing of the real CLI binary: generated file trees x check-mode invocation histories",
-         "Exploration: every invocation's effect on the whole tree (bytes + mtime), stdout and exit status is compared with a model that uses the library in-process.",
+         "Exploration: every invocation's effect on the whole tree (bytes + mtime), stdout and exit status is compared with a model that uses the library in-process; flags on either side of the subcommand, -i combined with --check across command levels, CRLF / no-final-newline / trailing-blank spellings of formatted files.",
          "format-all + non-UTF-8 eligible file: both exit codes accepted (the statement is silent). Root runs as root: unreadable = missing/dir/non-UTF-8/dangling symlink.",
          "DESIGN.md 5 (C14)"),
  "C15": ("model-based stateful property-based testing of the real CLI binary with injected read/write faults (immutable files via chattr +i)",
@@ -68,18 +68,18 @@ CLAIMED = {
          "Same model as C14; write failures need chattr +i support (counted as skipped otherwise).",
          "DESIGN.md 5 (C15)"),
  "C16": ("differential property-based testing: CLI stdout / file contents vs the library call for the same options",
-         "Exploration: option-sensitive documents (a call whose flat length is exactly column or column+1, unsorted imports, nesting) x column 0..400 x tab-width 0..16 x reorder x front-end.",
+         "Exploration: option-sensitive documents (a call whose flat length is exactly column or column+1, unsorted imports, nesting) x column 0..400 x tab-width 0..16 x reorder x front-end (stdout one/several files, stdin, -i, format-all, and call sequences of the width-only convenience function); file contents incl. erroneous texts with and without final newline, CRLF/CR spellings.",
          "The wasm artefact itself cannot be built here (no wasm32 target); pretty_print_wasm is a one-line delegate to format_with_width, which is what is tested (also in C05).",
          "DESIGN.md 5 (C16)"),
  "C17": ("history-differential property-based testing: job sets x repeated / interleaved / concurrent (2..16 threads) / cross-process histories vs fresh-process references",
-         "Exploration: randomised stress; detects leaked state that changes an output (e.g. a cache keyed by Span: near-duplicate texts share span numbers).",
+         "Exploration: randomised stress; detects leaked state that changes an output (e.g. a cache keyed by Span: near-duplicate texts share span numbers); part of the jobs go through the width-only wrapper, a ladder of descending widths is walked in order, and one marathon case makes 140 000 (thorough 1 000 000) calls in one process.",
          "Thread interleavings are sampled, not enumerated.",
          "DESIGN.md 5 (C17)"),
  "C18": ("property-based testing over nesting families x depth with an instrumentation counter (hook): conversions <= 2*nodes + 8",
-         "Exploration, deterministic oracle (no timing): 40 wrapper families nested up to depth 32 (quick) / 100 (thorough) and random mixes.",
+         "Exploration, deterministic oracle (no timing): 76 wrapper families (one per construct with alternative layouts) nested up to depth 32 (quick) / 100 (thorough) and random mixes.",
          "Counts typstyle's own conversion entry points only (hook --cfg typstyle_verif), not the external pretty renderer.",
          "DESIGN.md 5 (C18)"),
- "C19": ("property-based testing with import-heavy generators; oracle = off keeps order, on is a sorted permutation unless guarded, un-permuting on gives off byte for byte",
+ "C19": ("property-based testing with import-heavy generators; oracle = off keeps order, on is a sorted permutation unless guarded, un-permuting on gives off byte for byte; thorough tier: plus coverage-guided fuzzing (libFuzzer) of the same case space with the same oracle",
          "Exploration: plain/renamed/nested/parenthesised/multi-line imports with comments and duplicate names, all widths.",
          "Sorted = non-decreasing by the item's printed text bytewise or case-insensitively (the statement only says sorted).",
          "DESIGN.md 5 (C19)"),
